@@ -252,6 +252,17 @@ func workerBatch(t *testing.T, a workerArgs) int {
 			}
 			// final confirming run with the full log
 			oc := runOne(t, p, ReplayTape(rec), RunOpt{Tier: a.Tier, Full: true})
+			// the schedule replays exactly; whether ThreadSanitizer still holds the earlier access in its
+			// bounded shadow state when the later one happens can differ between executions: a race report is
+			// retried a few times before it counts as not reproducible
+			for try := 0; try < 6 && hasClause(oc, v.Clause) == nil && strings.HasSuffix(v.Clause, ".race"); try++ {
+				oc = runOne(t, p, ReplayTape(rec), RunOpt{Tier: a.Tier, Full: true})
+				if hasClause(oc, v.Clause) == nil && try >= 2 {
+					// fall back to the tape as recorded (the minimised one may sit on the edge)
+					rec = tp.Recorded()
+					rf.Minimised = false
+				}
+			}
 			if hasClause(oc, v.Clause) == nil {
 				sum.Error = "violation " + v.Clause + " of run " + strconv.FormatUint(idx, 10) + " did not reproduce from its own tape (nondeterminism in the harness)"
 				break
